@@ -185,6 +185,20 @@ theorem no_errexit_continues (fuel : Nat) (s : St) (he : s.errexit = false) :
 
 /-! ### ★ exit_trap_once -/
 
+/-- an error that interrupts the EXIT action with a status of its own (expansion, assignment or syntax
+    error: 2) leaves exactly that status — not the one `$?` had before the error -/
+theorem exit_trap_error_status (fuel : Nat) (s : St) (body : List Item) (e : Nat)
+    (ht : s.exitTrap = some body)
+    (hr : (execList fuel (s.push .trap) body).2 = .break_ (.interrupt (some e))) :
+    (runExitTrap fuel s).1.status = e ∧ (runExitTrap fuel s).2 = .break_ (.interrupt (some e)) := by
+  unfold runExitTrap
+  simp only [ht]
+  generalize execList fuel (s.push .trap) body = x at *
+  obtain ⟨s1, r⟩ := x
+  simp only at hr
+  subst hr
+  simp [St.applyResult, Divert.exitStatus]
+
 /-- the EXIT action `probe m` run by `run_exit_trap`: one probe, `$?` restored -/
 theorem runExitTrap_probe (fuel : Nat) (s1 : St) (m : Nat)
     (ht : s1.exitTrap = some [.mk (.mk false [.probe m]) []]) :
